@@ -237,7 +237,11 @@ def check(pid, tier, seed, update_expected=False):
                 r = kanirun.run_kani(dst, hs, no_default=g.get('no_default', False), jobs=g.get('jobs', 8),
                                      extra=g.get('extra', ()), timeout=g.get('timeout', 1800))
                 if r['compile_error'] or not r['harness']:
-                    return undecided(pid, tier, seed, t0, 'kani could not build the overlaid crate', r['raw_tail'])
+                    # no verdict from this group (the overlaid crate does not build, or the whole invocation timed out): the
+                    # property is undecided unless another obligation of this run fails with a verdict
+                    deferred.append('kani group without any verdict (%s): %s' % ('build error' if r['compile_error'] else 'time-out or tool failure', ', '.join(hs[:4])))
+                    notes.append('kani output tail: ' + r['raw_tail'][-600:])
+                    continue
                 for h in hs:
                     hr = r['harness'].get(h)
                     oid = 'kani%s:%s' % ('[ptr16]' if g.get('ptr16') else ('[nobatch]' if g.get('no_default') else ''), h)
@@ -251,7 +255,7 @@ def check(pid, tier, seed, update_expected=False):
                     if not ok and hr['failed_checks']:
                         # assertion messages carry the id of the property they decide ("C17: ..."); a harness shared between
                         # properties only fails for this property on its own assertions and on untagged checks (panics, overflow)
-                        mine_fc = [f for f in hr['failed_checks'] if not re.search(r'\bC\d\d:', f['desc']) or re.search(r'\b%s:' % pid, f['desc'])]
+                        mine_fc = [f for f in hr['failed_checks'] if not re.search(r'\bC\d\d:', f['desc']) or any(re.search(r'\b%s:' % tg, f['desc']) for tg in P.get('tags', [pid]))]
                         if not mine_fc:
                             ok = True
                             notes.append('harness %s failed only on assertions of other properties: %s' % (h, '; '.join(f['desc'][:60] for f in hr['failed_checks'][:3])))
